@@ -21,8 +21,8 @@ import (
 // function + ":" + construct text. A construct that is neither discharged by
 // a rule nor listed here is reported.
 var panicTable = map[string]string{
-	"recursion:func(a *registry.Package, b *registry.Package, lvl int):·,·,param+c": "conflict resolution one level deeper with the third-party holder of a wanted name: that holder is never a member of the pair (checked in the condition); beyond the deepest path level the wanted name is constant and has one holder, so a frame there either assigns or meets the equal-names branch, which is bounded by depth() and ends in numbering",
-	"recursion:func(a *registry.Package, b *registry.Package, lvl int):param,·,param+c": "as above, written in a helper that receives the package as a parameter",
+	"recursion:func(*registry.Package, *registry.Package, int):·,·,param+c":     "conflict resolution one level deeper with the third-party holder of a wanted name: that holder is never a member of the pair (checked in the condition); beyond the deepest path level the wanted name is constant and has one holder, so a frame there either assigns or meets the equal-names branch, which is bounded by depth() and ends in numbering",
+	"recursion:func(*registry.Package, *registry.Package, int):param,·,param+c": "as above, written in a helper that receives the package as a parameter",
 }
 
 // recursion whose argument is a strict component of the value switched on terminates:
@@ -33,13 +33,13 @@ var accessorBound = map[string]string{"At": "Len", "Method": "NumMethods", "Expl
 
 type panicSite struct {
 	tableKey string // alternative key into the table (rename-proof)
-	fn     string
-	text   string
-	kind   string
-	pos    token.Pos
-	node   ast.Node
-	reason string
-	ok     bool
+	fn       string
+	text     string
+	kind     string
+	pos      token.Pos
+	node     ast.Node
+	reason   string
+	ok       bool
 }
 
 // CheckPanics is C19's obligation table.
@@ -174,6 +174,8 @@ func CheckPanics(run *core.Run, prog *load.Program) {
 									return lenOracleIn(ci, cfd, t, c)
 								}); ok {
 									s.ok, s.reason = true, fmt.Sprintf("every call of the enclosing function (%d) is unreachable when len(%s) <= %d", n, target, c)
+								} else if ok, why := cliSmallModel(prog, pkgPath, x.Pos()); ok {
+									s.ok, s.reason = true, why
 								}
 							}
 						}
@@ -195,6 +197,8 @@ func CheckPanics(run *core.Run, prog *load.Program) {
 							return lenOracleIn(ci, cfd, t, need-1)
 						}); ok {
 							s.ok, s.reason = true, fmt.Sprintf("every call of the enclosing function (%d) is unreachable when len(%s) < %d", n, target, need)
+						} else if ok, why := cliSmallModel(prog, pkgPath, x.Pos()); ok {
+							s.ok, s.reason = true, why
 						}
 					}
 				}
@@ -287,7 +291,7 @@ func CheckPanics(run *core.Run, prog *load.Program) {
 	run.Count("panic_sites_auto_discharged", nAuto)
 	run.Count("panic_sites_table", nTable)
 	run.Floor("G-PANIC/index", 8)
-	run.Floor("G-PANIC/go/types-accessor", 8)
+	run.Floor("G-PANIC/go/types-accessor", 1)
 	run.Floor("G-PANIC/type-assertion", 3)
 	run.Floor("G-PANIC/recursion", 3)
 }
@@ -766,7 +770,12 @@ func commaOkDerefs(prog *load.Program, info *types.Info, fd *ast.FuncDecl, f *cf
 		if oid, ok := ast.Unparen(lhs[1]).(*ast.Ident); ok && oid.Name != "_" {
 			okVar, _ = info.ObjectOf(oid).(*types.Var)
 		}
-		_ = call
+		// the callee never returns a nil pointer, whatever the flag says: nothing to discharge
+		if call != nil {
+			if cf, _ := typeutil.Callee(info, call).(*types.Func); cf != nil && prog.IsMoqPkg(cf.Pkg()) && neverNilResult(prog, cf, 0) {
+				return true
+			}
+		}
 		// every dereferencing use of pv
 		ast.Inspect(fd.Body, func(u ast.Node) bool {
 			sel, ok := u.(*ast.SelectorExpr)
@@ -950,7 +959,7 @@ func recursionSites1(prog *load.Program) []*panicSite {
 			}
 			if !s.ok {
 				// a table line keyed by the callee's signature and the shape of the arguments
-				sig := types.TypeString(e.to.Type(), func(p *types.Package) string { return p.Name() })
+				sig := unnamedSignature(e.to.Type().(*types.Signature))
 				s.tableKey = "recursion:" + sig + ":" + argShape(e.info, e.fd, e.call)
 			}
 			if !s.ok {
@@ -1053,6 +1062,15 @@ func structuralFrom1(prog *load.Program, info *types.Info, fd *ast.FuncDecl, a a
 				if rs, ok := nn.(*ast.RangeStmt); ok && rs.Value != nil {
 					if vid, ok := rs.Value.(*ast.Ident); ok && info.ObjectOf(vid) == v && prog != nil && componentList(prog, info, fd, rs.X, depth+1) {
 						isElem = true
+					}
+				}
+				// the variable of a range over a go/types iterator (Types, Variables, Fields, Terms ...) of a
+				// switch symbol or of one of its components: the elements are strict components
+				if rs, ok := nn.(*ast.RangeStmt); ok && rs.Value == nil && rs.Key != nil {
+					if kid, ok := rs.Key.(*ast.Ident); ok && info.ObjectOf(kid) == v {
+						if recv, ok := goTypesIterator(info, rs.X); ok && structuralFrom(prog, info, fd, recv, false, depth+1) {
+							isElem = true
+						}
 					}
 				}
 				return true
@@ -1277,6 +1295,58 @@ func boundedCounter(info *types.Info, fd *ast.FuncDecl, call *ast.CallExpr) (str
 		}
 		if !isParam {
 			continue
+		}
+		// flow-sensitive form: for a counter beyond every bound it is compared with, the call is unreachable
+		{
+			f := cfgx.New(info, fd)
+			dec := callOracleExpr(func(e ast.Expr) (bool, bool, bool) {
+				cb, ok := e.(*ast.BinaryExpr)
+				if !ok {
+					return false, false, false
+				}
+				mentions := func(x ast.Expr) bool {
+					hit := false
+					ast.Inspect(x, func(n ast.Node) bool {
+						if cid, ok := n.(*ast.Ident); ok && info.ObjectOf(cid) == v {
+							hit = true
+						}
+						return !hit
+					})
+					return hit
+				}
+				isV := func(x ast.Expr) bool {
+					cid, ok := ast.Unparen(x).(*ast.Ident)
+					return ok && info.ObjectOf(cid) == v
+				}
+				op := cb.Op
+				switch {
+				case isV(cb.X) && !mentions(cb.Y):
+				case isV(cb.Y) && !mentions(cb.X):
+					switch op {
+					case token.LSS:
+						op = token.GTR
+					case token.GTR:
+						op = token.LSS
+					case token.LEQ:
+						op = token.GEQ
+					case token.GEQ:
+						op = token.LEQ
+					}
+				default:
+					return false, false, false
+				}
+				switch op {
+				case token.GTR, token.GEQ:
+					return true, true, false
+				case token.LSS, token.LEQ:
+					return true, false, true
+				}
+				return false, false, false
+			})
+			r := f.Explore(0, 0, cfgx.Cuts{Decide: dec})
+			if !r.PassedCall(call) {
+				return "the counter " + id.Name + " grows by one per call and the call is unreachable once it exceeds the bounds it is compared with", true
+			}
 		}
 		for _, enc := range enclosing(fd.Body, call) {
 			is, ok := enc.(*ast.IfStmt)
@@ -1859,14 +1929,7 @@ func atMostOnce(info *types.Info, fs *ast.ForStmt, st ast.Stmt) bool {
 	if fd := enclosingDeclOf[fs]; fd != nil && len(fs.Body.List) > 0 {
 		f := cfgx.New(info, fd)
 		dec := callOracleExpr(func(e ast.Expr) (bool, bool, bool) {
-			if be, ok := e.(*ast.BinaryExpr); ok && (be.Op == token.EQL || be.Op == token.NEQ) {
-				for _, pair := range [][2]ast.Expr{{be.X, be.Y}, {be.Y, be.X}} {
-					if id, ok := ast.Unparen(pair[0]).(*ast.Ident); ok && info.ObjectOf(id) == counter && info.Types[pair[1]].Value != nil {
-						return true, be.Op == token.NEQ, be.Op == token.EQL
-					}
-				}
-			}
-			return false, false, false
+			return largeCounter(info, counter, e)
 		})
 		if bb, bi := firstNodeWithin(f, fs.Body); bb >= 0 {
 			r := f.Explore(bb, bi, cfgx.Cuts{Decide: dec})
@@ -2034,4 +2097,240 @@ func componentList(prog *load.Program, info *types.Info, fd *ast.FuncDecl, e ast
 		return okAll && n > 0
 	}
 	return false
+}
+
+// unnamedSignature spells a signature by its parameter and result types only (parameter names are free).
+func unnamedSignature(sig *types.Signature) string {
+	q := func(p *types.Package) string { return p.Name() }
+	var ps, rs []string
+	for i := 0; i < sig.Params().Len(); i++ {
+		ps = append(ps, types.TypeString(sig.Params().At(i).Type(), q))
+	}
+	for i := 0; i < sig.Results().Len(); i++ {
+		rs = append(rs, types.TypeString(sig.Results().At(i).Type(), q))
+	}
+	out := "func(" + strings.Join(ps, ", ") + ")"
+	if len(rs) > 0 {
+		out += " (" + strings.Join(rs, ", ") + ")"
+	}
+	return out
+}
+
+// CLIIndexed, when set, reports the index and slice expressions of package main that the abstract
+// interpretation of func main (engine C) evaluated in range on every path, for every number of
+// positional arguments from 0 to the returned maximum.
+var CLIIndexed func() (sites map[token.Pos]bool, maxArgs int, ok bool)
+
+// cliSmallModel discharges an index or slice expression with constant bounds in package main: the
+// interpretation of main reached it and found it in range for 0..K arguments, and package main observes
+// the length of a string slice only by comparing len(..) with constants below K — so every longer
+// command line takes the branches the K-argument one takes, with lists at least as long.
+func cliSmallModel(prog *load.Program, pkgPath string, pos token.Pos) (bool, string) {
+	if CLIIndexed == nil || pkgPath != load.PkgMain {
+		return false, ""
+	}
+	sites, k, ok := CLIIndexed()
+	if !ok || !sites[pos] {
+		return false, ""
+	}
+	stable := true
+	funcsOf(prog, func(pp string, info *types.Info, fd *ast.FuncDecl, fn *types.Func) {
+		if pp != load.PkgMain || !stable {
+			return
+		}
+		var stack []ast.Node
+		ast.Inspect(fd, func(n ast.Node) bool {
+			if n == nil {
+				stack = stack[:len(stack)-1]
+				return true
+			}
+			stack = append(stack, n)
+			call, isCall := n.(*ast.CallExpr)
+			if !isCall || len(call.Args) != 1 {
+				return true
+			}
+			id, _ := ast.Unparen(call.Fun).(*ast.Ident)
+			if id == nil {
+				return true
+			}
+			if bi, _ := info.Uses[id].(*types.Builtin); bi == nil || (bi.Name() != "len" && bi.Name() != "cap") {
+				return true
+			}
+			sl, isSlice := info.TypeOf(call.Args[0]).Underlying().(*types.Slice)
+			if !isSlice {
+				return true
+			}
+			if b, isB := sl.Elem().Underlying().(*types.Basic); !isB || b.Kind() != types.String {
+				return true
+			}
+			// the parent (parentheses aside) must compare it with a small constant
+			var parent ast.Node
+			for i := len(stack) - 2; i >= 0; i-- {
+				if _, isParen := stack[i].(*ast.ParenExpr); !isParen {
+					parent = stack[i]
+					break
+				}
+			}
+			small := func(e ast.Expr) bool {
+				c, ok := constIntOf(info, e)
+				return ok && c < int64(k)
+			}
+			switch p := parent.(type) {
+			case *ast.BinaryExpr:
+				switch p.Op {
+				case token.LSS, token.LEQ, token.GTR, token.GEQ, token.EQL, token.NEQ:
+					other := p.Y
+					if ast.Unparen(p.Y) == ast.Expr(call) {
+						other = p.X
+					}
+					if !small(other) {
+						stable = false
+					}
+				default:
+					stable = false
+				}
+			case *ast.SwitchStmt:
+				if ast.Unparen(p.Tag) != ast.Expr(call) {
+					stable = false
+					break
+				}
+				for _, cc := range p.Body.List {
+					for _, e := range cc.(*ast.CaseClause).List {
+						if !small(e) {
+							stable = false
+						}
+					}
+				}
+			default:
+				stable = false
+			}
+			return true
+		})
+	})
+	if !stable {
+		return false, ""
+	}
+	return true, fmt.Sprintf("the abstract interpretation of func main evaluates it in range on every path that reaches it for 0..%d arguments, and package main observes slice lengths only through comparisons of len(..) with constants below %d: longer command lines take the same branches with longer lists", k, k)
+}
+
+// neverNilResult: every return of the moq function gives a freshly taken address (&x, &T{..}, new(T)) as
+// result ri — directly, or through a local or named result that only ever holds such values.
+func neverNilResult(prog *load.Program, fn *types.Func, ri int) bool {
+	d := prog.Decl(fn)
+	info := prog.Info(fn.Pkg())
+	if d == nil || d.Body == nil || info == nil {
+		return false
+	}
+	bd := newBounds(prog, info, d)
+	var named []*ast.Ident
+	if d.Type.Results != nil {
+		for _, fl := range d.Type.Results.List {
+			named = append(named, fl.Names...)
+		}
+	}
+	var fresh func(e ast.Expr, depth int) bool
+	fresh = func(e ast.Expr, depth int) bool {
+		if depth > 4 {
+			return false
+		}
+		switch x := ast.Unparen(e).(type) {
+		case *ast.UnaryExpr:
+			return x.Op == token.AND
+		case *ast.CallExpr:
+			if id, ok := ast.Unparen(x.Fun).(*ast.Ident); ok {
+				if bi, ok := info.Uses[id].(*types.Builtin); ok && bi.Name() == "new" {
+					return true
+				}
+			}
+		case *ast.Ident:
+			v, _ := info.ObjectOf(x).(*types.Var)
+			if v == nil || v.IsField() || len(bd.assigns[v]) == 0 {
+				return false
+			}
+			for _, a := range bd.assigns[v] {
+				if a == nil || !fresh(a, depth+1) {
+					return false
+				}
+			}
+			// a named result is nil until its first assignment: that must be a statement of the body
+			// itself with no return before it
+			for _, nm := range named {
+				if info.Defs[nm] != v {
+					continue
+				}
+				first := bd.anodes[v][0]
+				top := false
+				for _, st := range d.Body.List {
+					if ast.Node(st) == first {
+						top = true
+					}
+				}
+				early := false
+				ast.Inspect(d.Body, func(x ast.Node) bool {
+					if rs, ok := x.(*ast.ReturnStmt); ok && rs.Pos() < first.Pos() {
+						early = true
+					}
+					return true
+				})
+				if !top || early {
+					return false
+				}
+			}
+			return true
+		}
+		return false
+	}
+	okAll, n := true, 0
+	ast.Inspect(d.Body, func(x ast.Node) bool {
+		if _, isLit := x.(*ast.FuncLit); isLit {
+			return false
+		}
+		if rs, ok := x.(*ast.ReturnStmt); ok {
+			n++
+			switch {
+			case ri < len(rs.Results) && len(rs.Results) > 1 || len(rs.Results) == 1 && ri == 0 && fn.Type().(*types.Signature).Results().Len() == 1:
+				if !fresh(rs.Results[ri], 0) {
+					okAll = false
+				}
+			case len(rs.Results) == 0 && ri < len(named):
+				if !fresh(named[ri], 0) {
+					okAll = false
+				}
+			default:
+				okAll = false
+			}
+		}
+		return true
+	})
+	return okAll && n > 0
+}
+
+// goTypesIterator: e is a call x.M() of a go/types method that returns a one-value iterator
+// (func(yield func(T) bool)); it returns the receiver x.
+func goTypesIterator(info *types.Info, e ast.Expr) (ast.Expr, bool) {
+	call, ok := ast.Unparen(e).(*ast.CallExpr)
+	if !ok || len(call.Args) != 0 {
+		return nil, false
+	}
+	sel, ok := ast.Unparen(call.Fun).(*ast.SelectorExpr)
+	if !ok {
+		return nil, false
+	}
+	fn, _ := typeutil.Callee(info, call).(*types.Func)
+	if fn == nil || fn.Pkg() == nil || fn.Pkg().Path() != "go/types" {
+		return nil, false
+	}
+	t := info.TypeOf(call)
+	if t == nil {
+		return nil, false
+	}
+	sig, ok := t.Underlying().(*types.Signature)
+	if !ok || sig.Params().Len() != 1 || sig.Results().Len() != 0 {
+		return nil, false
+	}
+	y, ok := sig.Params().At(0).Type().Underlying().(*types.Signature)
+	if !ok || y.Params().Len() != 1 {
+		return nil, false
+	}
+	return sel.X, true
 }
